@@ -228,6 +228,8 @@ class SNum(Sym):
             return res
         if self._fr() is None and not (isinstance(o, SNum) and o._fr() is not None):
             return res
+        if _CTX is not None and not getattr(_CTX, 'frac_propagation', True):
+            return res          # the contract compares structurally (same division atoms on both sides)
         fa, fb = SNum._frac_of(self), SNum._frac_of(o)
         if fa is None or fb is None:
             return res
@@ -289,6 +291,8 @@ class SNum(Sym):
     def _div_frac(self, o, res, rev=False):
         """(na/da) / (nb/db) = (na db)/(da nb) when the operands themselves carry fractions"""
         if not isinstance(res, SNum):
+            return res
+        if _CTX is not None and not getattr(_CTX, 'frac_propagation', True):
             return res
         x, y = (o, self) if rev else (self, o)
         fa, fb = SNum._frac_of(x), SNum._frac_of(y)
